@@ -266,7 +266,7 @@ REGISTRY = {
     'C17': dict(fn=c17, level='exploration',
                 rule='Boost.Serialization 1.83 text/binary/XML archives; element types int, double, std::string (with spaces and XML metacharacters), nested multi::array<int,1>; ranks 1..4; extents 0..4 incl. all-zero and single-zero; '
                      'whole-array round trip into a loading array in prior state {empty, same extents, other extents, larger, moved-from, same count but other extents}: extents, elements, ==, and re-saving gives the identical archive (XML archives of ints are parsed independently: exactly num_elements items in canonical order); '
-                     'view round trip: a view {whole, rotated, sub-block, strided} is saved and loaded into the same kind of view over another root: k-th element to k-th element, everything outside the loaded view untouched. distinct = hash(archive kind, prior state / view kind, emptiness); non-trivial = >= 2 elements',
+                     'view round trip: a view {whole, rotated, sub-block, strided, transposed} is saved and loaded into the same kind of view over another root: k-th element to k-th element, everything outside the loaded view untouched; the same archive is also loaded into a contiguous view of equal extents, and the archive of a contiguous view into the laid-out view (the archive of a view must not depend on its memory layout). distinct = hash(archive kind, prior state / view kind, emptiness); non-trivial = >= 2 elements',
                 assumptions=['0-D arrays are not serialised here (reduced interface)']),
     'C14': dict(fn=c14, level='exploration',
                 rule='potrf: n 1..6 (thorough ..9) x {row-major, column-major} x {contiguous, padded} x both triangles x {SPD M*M^T+nI, indefinite with a known first non-positive leading minor}: returned block order, factor*factor^T vs the selected triangle (50*n*eps*|A|), other triangle and everything outside the view untouched. '
@@ -280,7 +280,7 @@ REGISTRY = {
                 assumptions=['FFTW itself is trusted as a black box only through its observable reads/writes: ASan cannot see inside it (canaries/poison in quick, memcheck in thorough)']),
     'C13': dict(fn=c13, level='exploration', exhaustive=True,
                 rule='exhaustive enumeration (case k = mixed-radix index): gemm {in-place, C=gemm, C+=gemm, +gemm} x A,B,C layouts {row-major contiguous, row-major padded sub-block, column-major contiguous, column-major padded} x m,n,k in 0..3 x 3 (alpha,beta) pairs x (complex: N/J/H on A and B); '
-                     'gemv {in-place, y=gemv} x 4 matrix layouts x 4x4 vector layouts (unit, strided, column of padded matrix, row of padded matrix) x m,n in 0..3 x scalars; axpy, scal, copy, swap, dot (u/c forms), nrm2 on 4x4 vector layouts x n in 0..4; herk, syrk, trsm x layouts x both triangles x n,k in 0..3; double and complex<double> (thorough: float, complex<float>, and memcheck). '
+                     'gemv {in-place, y=gemv} x 4 matrix layouts x 4x4 vector layouts (unit, strided, column of padded matrix, row of padded matrix) x m,n in 0..3 x scalars; axpy, scal, copy, swap, dot (u/c forms), nrm2 on 4x4 vector layouts x n in 0..4; herk, syrk, trsm x layouts x both triangles x n,k in 0..3, trsm also over {A,H(A)} x {B,H(B)} x 4 complex scalars; operator / lazy-range forms (y+=axpy(a,x), y+=a*x, x+y, y*=a, y=copy(x), y<<x, T=dot, dot(x,y,res), array<T,0>=dot, nrm2, abs, y+=gemv, +gemv, A%x, (a*A)%x, C=A*B, C+=A*B, a*gemm, B|=U(A), B/=L(A), herk convenience forms) over the same layouts and sizes; double and complex<double> (thorough: float, complex<float>, and memcheck). '
                      'Oracle: naive reference on small-integer data (exact), guarded buffers: 64 canaries around each root and poisoned padding inside it, inputs compared bit for bit; outcome classes computed-ok | rejected (exception or assertion: allowed) | wrong | oob-write | input-modified. '
                      'distinct = (operation, layout tuple, element type, size class 0/1/n per extent, scalar class); non-trivial = non-empty output',
                 assumptions=['OpenBLAS reads/writes are invisible to ASan: canaries + poisoned padding in quick, valgrind memcheck in thorough', 'asum/iamax are not compilable in assertion-enabled builds at the pinned commit and are not exercised']),
